@@ -52,13 +52,40 @@ Operations (JSON-able):
         ['fire', k] = before the k-th TASK_STATE callback of this call.
         Recorded as NotifyBegin, [NotifyPartial, <events of op>]*, NotifyEnd.
 
+    ['api', name, args]                      application calls between notifications:
+        'wait_tasks' {uids, state, timeout} / 'list_tasks' / 'get_tasks' {uids}
+        (real methods, virtual clock for time.time / time.sleep)
+    ['service_info', uid, 'str'|'dict'|'none', 'control'|'direct']
+        a service task reports its startup info: the real service_up control
+        message handler (TaskManager._control_cb) or Task._set_info
+    ['submit', 'pilot'|'tmgr', pid, [uids], k, op]
+        real Pilot.submit_tasks / TaskManager.submit_tasks for tasks named in
+        `late` (early bound to pid); after the k-th Task object was created (and
+        none is registered yet) another thread runs `op` (a 'pilot_final').
+        Recorded as SubmitBegin, <events of op unless it has to wait>, SubmitEnd.
+    ['app_cb', 'cancel_pilot']               registers (real register_callback) an
+        application callback that cancels the pilot of a task that FAILED
+        (Pilot.cancel -> PilotManager.cancel_pilots -> wait_pilots); the cancel
+        request is answered by the pilot manager's subscriber thread delivering
+        the pilot's CANCELED notification
+    ['pilot_cancel', pid]                    the application thread calls Pilot.cancel
+
 Logical threads and locks: the rig is single threaded; every operation runs as a
 named logical thread ('sub' the state subscriber, 'pcb' the pilot callback,
 'pmgr' the pilot manager's subscriber).  TaskManager._tasks_lock is replaced by
 a lock that knows which logical thread holds it: an operation injected at a
 schedule point that needs the lock while the interrupted thread holds it cannot
 run there (it would block) and is carried out after the interrupted call
-returned.  So a repair that takes the lock is seen as such.
+returned.  So a repair that takes the lock is seen as such.  All locks of the
+managers and pilots are such locks; they record the acquisition order (lock held
+-> lock taken, per logical thread).  A thread that cannot proceed inside an
+injected operation stays blocked holding its locks; if the interrupted thread
+then needs one of those, that is a deadlock (recorded, the history ends).
+
+Module tables (states.FINAL, INITIAL, the state value maps) are fingerprinted
+when the rig is imported; every event says whether they still are what they were
+(`tables`).  Nothing is restored inside a history; after a history they are put
+back, and a history that finds them changed at its start refuses to run.
     ['bind', uid, pid]                       full task dict with 'pilot'
     ['pilot_final', pid, code, how, echo]    how: 'list' | 'single'
     ['pnotify', [[type, pid, code], ...]]
@@ -179,6 +206,43 @@ def doc_kind(v):
     return 'str' if v else 'empty'
 
 
+class Stalled(Exception):
+    '''the virtual clock ran far ahead: the call waits for something that
+       cannot happen in this history'''
+
+
+class VClock(object):
+    '''stands in for the `time` module of the managers'''
+
+    def __init__(self):
+        self.now = 1000.0
+
+    def time(self):
+        return self.now
+
+    def sleep(self, dt):
+        self.now += max(dt, 0.01)
+        if self.now > 1060.0:
+            raise Stalled('virtual clock ran 60 s ahead')
+
+
+def _tables():
+    '''the module level tables the notification path relies on'''
+    return {'FINAL'  : list(rps.FINAL), 'INITIAL': list(rps.INITIAL),
+            'tvalues': dict(rps._task_state_values), 'pvalues': dict(rps._pilot_state_values),
+            'tinv'   : dict(rps._task_state_inv),    'pinv'   : dict(rps._pilot_state_inv)}
+
+
+def _restore_tables(base):
+    rps.FINAL[:]   = base['FINAL']
+    rps.INITIAL[:] = base['INITIAL']
+    for name, key in (('_task_state_values', 'tvalues'), ('_pilot_state_values', 'pvalues'),
+                      ('_task_state_inv', 'tinv'), ('_pilot_state_inv', 'pinv')):
+        d = getattr(rps, name)
+        d.clear()
+        d.update(base[key])
+
+
 class WouldBlock(BaseException):
     '''the injected logical thread needs a lock the interrupted one holds'''
 
@@ -186,12 +250,23 @@ class WouldBlock(BaseException):
 class TrackingLock(object):
     '''re-entrant lock for logical threads of a single-threaded rig'''
 
-    def __init__(self, rig):
-        self.rig, self.owner, self.depth = rig, None, 0
+    def __init__(self, rig, name='tmgr._tasks_lock'):
+        self.rig, self.name, self.owner, self.depth = rig, name, None, 0
+        rig.locks.append(self)
 
     def acquire(self, blocking=True, timeout=-1):
         me = self.rig._lt
+        if self.owner != me:
+            # acquisition order: every lock this thread holds comes before this one
+            for other in self.rig.locks:
+                if other.owner == me and other is not self:
+                    self.rig.lock_edges.add((other.name, self.name))
         if self.owner not in (None, me):
+            self.rig._wants = self.name
+            if self.owner in self.rig.blocked:
+                # the owner waits for a lock of ours: nobody moves anymore
+                self.rig.deadlock = {'thread': me, 'wants': self.name, 'owner': self.owner,
+                                     'blocked': dict(self.rig.blocked)}
             raise WouldBlock()
         self.owner  = me
         self.depth += 1
@@ -205,12 +280,32 @@ class TrackingLock(object):
     def __enter__(self):
         return self.acquire()
 
-    def __exit__(self, *a):
+    def __exit__(self, et, ev, tb):
+        if et is WouldBlock and self.rig._lt in self.rig.blocking:
+            return False          # the thread is stuck further in: it keeps what it holds
         self.release()
 
 
 LTHREAD = {'notify': 'sub', 'bind': 'sub', 'notify_race': 'sub', 'task_update': 'app',
-           'pilot_final': 'pcb', 'death_race': 'pcb', 'pnotify': 'pmgr'}
+           'pilot_final': 'pcb', 'death_race': 'pcb', 'pnotify': 'pmgr',
+           'api': 'app', 'submit': 'app', 'pilot_cancel': 'app', 'service_info': 'ctl'}
+
+BASE_TABLES = _tables()
+if BASE_TABLES['FINAL'] != [rps.DONE, rps.FAILED, rps.CANCELED]:
+    raise RuntimeError('states.FINAL is %s when the rig is imported' % BASE_TABLES['FINAL'])
+
+
+class Reporter(object):
+    '''TaskManager._rep: progress() is called once per Task object created by
+       submit_tasks, before any of them is registered: a schedule point'''
+    def __init__(self, rig):
+        self.rig = rig
+
+    def progress(self, *a, **k):
+        self.rig._submit_point()
+
+    def __getattr__(self, name):
+        return lambda *a, **k: None
 
 
 class FakeSub(object):
@@ -235,7 +330,7 @@ class FakePilot(object):
 # ------------------------------------------------------------------------------
 class ClientRig(object):
 
-    def __init__(self, tasks, pilots, init_bound=None, modes=None, add=None):
+    def __init__(self, tasks, pilots, init_bound=None, modes=None, add=None, late=None):
         '''modes: {uid: 'service'} (default: executable tasks);
            add  : how the pilots reach the task manager at start: list of groups,
                   a group is a pid (add_pilots(pilot)) or a list of pids
@@ -251,6 +346,24 @@ class ClientRig(object):
         self._faults = dict()    # uid -> patcher
         self._depth  = 0         # > 0: inside an operation injected at a schedule point
         self._lt     = 'main'    # logical thread that runs the current operation
+        self.late    = list(late or [])     # tasks created later by the 'submit' operation
+        self.locks      = list()            # all tracking locks
+        self.lock_edges = set()             # (held, taken)
+        self._edges_seen = set()
+        self.blocked    = dict()            # logical thread -> lock it waits for, for good
+        self.blocking   = set()             # logical threads run as injected operations
+        self.deadlock   = None
+        self.clock      = VClock()
+        self._unregistered = dict()         # Task objects created, not yet known to the tmgr
+        self._cancel_asked = set()
+        self._nr_events    = None
+        self._wants     = None
+        self._submit    = None              # submission in progress
+        self._nr        = None              # interrupted notification in progress
+        self._app_cbs   = list()
+        if _tables() != BASE_TABLES:
+            raise RuntimeError('module tables of radical.pilot.states are not what they were when '
+                               'the rig was imported (an earlier history changed them)')
 
         self.tlog   = list()     # (uid, announced, Task.state)   manager-level cb
         self.ulog   = list()     # (uid, announced, Task.state)   task-level cb
@@ -270,11 +383,15 @@ class ClientRig(object):
         tm._log        = log
         tm._prof       = log
         tm._tasks      = dict()
-        tm._tasks_lock = TrackingLock(self)
+        tm._tasks_lock = TrackingLock(self, 'tmgr._tasks_lock')
         tm._pilots     = dict()
-        tm._pilots_lock = mt.RLock()
+        tm._pilots_lock = TrackingLock(self, 'tmgr._pilots_lock')
         tm._callbacks  = {m: dict() for m in rpc.TMGR_METRICS}
-        tm._tcb_lock   = mt.RLock()
+        tm._tcb_lock   = TrackingLock(self, 'tmgr._tcb_lock')
+        tm._known_uids = set(t for t in self.tasks if t not in self.late)
+        tm._session    = FakeSession()
+        tm._rep        = Reporter(self)
+        tm._rpc_queue  = collections.deque()
         tm._terminate  = mt.Event()
         tm._closed     = False
         tm._task_info  = collections.defaultdict(dict)
@@ -283,12 +400,13 @@ class ClientRig(object):
         self.tm = tm
 
         for uid in self.tasks:
-            tm._tasks[uid] = self._make_task(uid, self.init_bound[uid])
+            if uid not in self.late:
+                tm._tasks[uid] = self._make_task(uid, self.init_bound[uid])
 
         # real registration paths: manager-level (wildcard, with cb_data) and
         # task-level (uid specific)
         tm.register_callback(self._task_cb_mgr, cb_data={'rig': 1})
-        for uid in self.tasks:
+        for uid in tm._tasks:
             tm._tasks[uid].register_callback(self._task_cb_task)
 
         # ---- pilot manager --------------------------------------------------
@@ -297,11 +415,13 @@ class ClientRig(object):
         pm._log         = log
         pm._prof        = log
         pm._pilots      = dict()
-        pm._pilots_lock = mt.RLock()
+        pm._pilots_lock = TrackingLock(self, 'pmgr._pilots_lock')
         pm._callbacks   = {m: dict() for m in rpc.PMGR_METRICS}
-        pm._pcb_lock    = mt.RLock()
+        pm._pcb_lock    = TrackingLock(self, 'pmgr._pcb_lock')
         pm._terminate   = mt.Event()
+        pm._rep         = rpshim.NullLog()
         pm.advance      = lambda *a, **k: None
+        pm.publish      = self._pm_publish
         self.pm = pm
 
         for pid in self.pilots:
@@ -369,7 +489,7 @@ class ClientRig(object):
         p._sub           = FakeSub()
         p._pilot_dict    = dict()
         p._callbacks     = {m: dict() for m in rpc.PMGR_METRICS}
-        p._cb_lock       = ru.RLock()
+        p._cb_lock       = TrackingLock(self, 'pilot._cb_lock')
         p._tmgr          = None
         p._nodelist      = None
         p._exit_on_error = False
@@ -433,7 +553,12 @@ class ClientRig(object):
                     if d.get('state') == rps.FAILED)
         tpost = dict()
         for uid in self.tasks:
-            task = self.tm._tasks[uid]
+            task = self.tm._tasks.get(uid) or self._unregistered.get(uid)
+            if task is None:                  # to be submitted later in this history
+                tpost[uid] = {'st': 0, 'cbs': [], 'at': [], 'tcbs': [], 'pilot': self.init_bound[uid],
+                              'det': 'none', 'exc': False, 'pub': False, 'asd': True, 'inj': False,
+                              'sk': 'none', 'ex': False}
+                continue
             new  = [x for x in self.tlog[m_t:] if x[0] == uid]
             tpost[uid] = {'st'   : tcode(task.state),
                           'cbs'  : [x[1] for x in new],
@@ -446,7 +571,8 @@ class ClientRig(object):
                           'asd'  : self._as_dict_works(task),
                           'inj'  : uid in self._faults,  # as_dict fault injected by the rig
                           'sk'   : 'dict' if isinstance(task._slots, dict) else
-                                   'list' if task._slots else 'none'}
+                                   'list' if task._slots else 'none',
+                          'ex'   : uid in self.tm._tasks}        # known to the task manager
         ppost = dict()
         for pid in self.pilots:
             pilot = self.pm._pilots[pid]
@@ -455,16 +581,22 @@ class ClientRig(object):
                           'cbs' : [x[1] for x in new],
                           'at'  : [x[2] for x in new],
                           'pcbs': [x[1] for x in self.pplog[m_pp:] if x[0] == pid]}
+        edges = sorted(self.lock_edges - self._edges_seen)
+        self._edges_seen |= set(edges)
         return {'tpost': tpost, 'ppost': ppost,
+                'tables': _tables() == BASE_TABLES,          # module tables are untouched
+                'edges' : [list(e) for e in edges],          # new lock acquisition orders
+                'deadlock': self.deadlock is not None,
                 'calls': list(self.calls[m_c:]),
                 'stray': self.stray - m_s,
                 'ntasks': len(self.tm._tasks), 'npilots': len(self.pm._pilots)}
 
     # ---- real entry points ----------------------------------------------------------
-    def _call(self, fn, *args):
+    def _call(self, fn, *args, **kwargs):
         try:
-            ret = fn(*args)
-            return False, {True: 'true', False: 'false', None: 'none'}.get(ret, 'other')
+            ret = fn(*args, **kwargs)
+            return False, ('true' if ret is True else 'false' if ret is False else
+                           'none' if ret is None else 'other')
         except Exception as e:                                    # an observation
             return True, type(e).__name__
 
@@ -484,19 +616,38 @@ class ClientRig(object):
     def _inject(self, op):
         '''run `op` as another logical thread at a schedule point of the current
            one; None if it would block on a lock the current one holds'''
+        who = LTHREAD.get(op[0], 'main')
         self._depth += 1
+        self.blocking.add(who)
         try:
             return self.apply(op)
         except WouldBlock:
-            # only taken at the very start of the paths injected here
-            # (_update_tasks, _pilot_state_cb under a lock): nothing happened
+            # the injected thread waits (holding what it holds).  For the paths that
+            # are deferred and re-run (_update_tasks, _pilot_state_cb: lock first,
+            # nothing done before) it holds nothing.
+            self.blocked[who] = self._wants
             return None
         finally:
+            self.blocking.discard(who)
             self._depth -= 1
+
+    def _resume(self, op):
+        '''the interrupted call returned: the thread that waited runs now'''
+        who = LTHREAD.get(op[0], 'main')
+        self.blocked.pop(who, None)
+        for lock in self.locks:
+            if lock.owner == who:
+                lock.owner, lock.depth = None, 0
+        return self.apply(op)
 
     def _apply(self, op):
         kind = op[0]
         mark = self._mark()
+
+        if kind == 'notify' and self._app_cbs and not self._depth:
+            # application callbacks may start other threads: recorded in the
+            # begin / partial / end form
+            return self._notify_race(['notify_race', op[1], []])
 
         if kind == 'notify':
             batch = [[e[0], int(e[1])] for e in op[1]]
@@ -548,6 +699,55 @@ class ClientRig(object):
             self._set_fault(op[1])
             return []
 
+        elif kind == 'api':
+            from unittest import mock
+            import radical.pilot.task_manager as tmod
+            name, args = op[1], dict(op[2] if len(op) > 2 and op[2] else {})
+            if 'state' in args and args['state'] is not None:
+                st = args['state']
+                args['state'] = [TNAMES[x] for x in st] if isinstance(st, list) else TNAMES[st]
+            with mock.patch.object(tmod, 'time', self.clock):
+                raised, ret = self._call(getattr(self.tm, name), **args)
+            ev = {'ev': 'ApiCall', 'name': name}
+
+        elif kind == 'service_info':
+            uid, what, via = op[1], op[2], op[3]
+            info = {'str': 'tcp://10.0.0.1:5000', 'dict': {'url': 'tcp://10.0.0.1:5000', 'n': 1},
+                    'none': None}[what]
+            if via == 'control':
+                raised, ret = self._call(self.tm._control_cb, rpc.CONTROL_PUBSUB,
+                                         {'cmd': 'service_up', 'arg': {'uid': uid, 'info': info}})
+            else:
+                task = self.tm._tasks.get(uid)
+                raised, ret = self._call(task._set_info, info) if task else (False, 'none')
+            ev = {'ev': 'ServiceInfo', 'uid': uid, 'info': what}
+
+        elif kind == 'app_cb':
+            # an application callback with side effects, through the real registration
+            self.tm.register_callback(self._app_cancel_cb)
+            self._app_cbs.append(op[1])
+            return []
+
+        elif kind == 'pilot_cancel':
+            from unittest import mock
+            import radical.pilot.pilot_manager as pmod
+            pre = list()
+            self._nr_events = pre
+            try:
+                with mock.patch.object(pmod, 'time', self.clock):
+                    raised, ret = self._call(self.pm._pilots[op[1]].cancel)
+            finally:
+                self._nr_events = None
+            ev = {'ev': 'PilotCancel', 'pilot': op[1]}
+            ev.update({'raised': raised, 'ret': ret})
+            ev.update(self._snapshot(self._mark()))
+            for u in ev['tpost']:
+                ev['tpost'][u].update({'cbs': [], 'at': [], 'tcbs': []})
+            return pre + [ev]
+
+        elif kind == 'submit':
+            return self._submit_tasks(op)
+
         elif kind == 'death_race':
             return self._death_race(op)
 
@@ -586,6 +786,100 @@ class ClientRig(object):
             echo = [[d['uid'], tcode(d['state'])] for d in self.published[-1]]
             if echo:
                 events += self.apply(['notify', echo])
+        return events
+
+    # --------------------------------------------------------------------------
+    def _pm_publish(self, channel, msg, *a, **k):
+        '''PilotManager.publish: a cancel request is enacted elsewhere; the result
+           comes back as a state notification in the pilot manager's subscriber
+           thread - here and now, as another logical thread'''
+        self.control.append((channel, msg))
+        if msg.get('cmd') != 'cancel_pilots':
+            return
+        for pid in msg['arg']['uids']:
+            if pid not in self.pm._pilots or self.pm._pilots[pid].state in rps.FINAL:
+                continue
+            act = ['pnotify', [['pilot', pid, P_CANCELED]]]
+            if self._nr:                              # inside an interrupted notification
+                self._nr(act)
+            else:
+                evs = self._inject(act)
+                if evs is not None and self._nr_events is not None:
+                    self._nr_events.extend(evs)
+
+    def _app_cancel_cb(self, task, state):
+        '''application policy: a pilot on which a task failed is not trusted anymore'''
+        if state != rps.FAILED or not task.pilot or task.pilot not in self.pm._pilots:
+            return
+        pilot = self.pm._pilots[task.pilot]
+        if pilot.state in rps.FINAL or task.pilot in self._cancel_asked:
+            return
+        self._cancel_asked.add(task.pilot)
+        from unittest import mock
+        import radical.pilot.pilot_manager as pmod
+        with mock.patch.object(pmod, 'time', self.clock):
+            pilot.cancel()
+
+    # --------------------------------------------------------------------------
+    def _submit_point(self):
+        sub = self._submit
+        if not sub or self._depth:
+            return
+        sub['created'] += 1
+        if sub['created'] != sub['k'] or not sub['op']:
+            return
+        # Task objects exist, none is registered: another thread runs now
+        act, sub['op'] = sub['op'], None
+        evs = self._inject(act)
+        if evs is None:
+            sub['waiting'].append(act)
+        else:
+            sub['inner'].extend(evs)
+
+    def _submit_tasks(self, op):
+        from unittest import mock
+        via, pid, uids, k = op[1], op[2], list(op[3]), int(op[4]) if len(op) > 4 else 0
+        act = op[5] if len(op) > 5 else None
+        tds = list()
+        for uid in uids:
+            d = {'uid': uid, 'executable': '/bin/true'}
+            if self.modes.get(uid) == 'service':
+                d['mode'] = rp.TASK_SERVICE
+            if via == 'tmgr' and pid != 'none':
+                d['pilot'] = pid
+            tds.append(TaskDescription(d))
+        mark  = self._mark()
+        begin = {'ev': 'SubmitBegin', 'uids': uids, 'pilot': pid, 'raised': False, 'ret': 'none'}
+        begin.update(self._snapshot(mark))
+        self._submit = {'k': k, 'op': act, 'created': 0, 'inner': [], 'waiting': []}
+        sub = self._submit
+
+        # keep an eye on the Task objects from their creation on
+        rig, real_init = self, Task.__init__
+
+        def _init(task, tmgr, descr, origin):
+            real_init(task, tmgr, descr, origin)
+            rig._unregistered[task.uid] = task
+
+        try:
+            with mock.patch.object(Task, '__init__', _init):
+                if via == 'pilot':
+                    raised, ret = self._call(self.pm._pilots[pid].submit_tasks, tds)
+                else:
+                    raised, ret = self._call(self.tm.submit_tasks, tds)
+        finally:
+            self._submit = None
+        for uid in uids:
+            self._unregistered.pop(uid, None)
+            if uid in self.tm._tasks:
+                self.tm._tasks[uid].register_callback(self._task_cb_task)
+        end = {'ev': 'SubmitEnd', 'uids': uids, 'pilot': pid, 'raised': raised, 'ret': ret}
+        end.update(self._snapshot(self._mark()))
+        events = [begin] + sub['inner'] + [end]
+        for w in sub['waiting']:
+            events += self._resume(w)
+        if sub['op']:                                 # point never reached
+            events += self.apply(sub['op'])
         return events
 
     # --------------------------------------------------------------------------
@@ -653,7 +947,8 @@ class ClientRig(object):
         events = [begin] + inner + [end]
         # windows the callback never reached (task not selected), notifications that
         # had to wait for the lock: delivered afterwards
-        windows.update(blocked)
+        for uid in list(blocked):
+            events += self._resume(['notify', blocked.pop(uid)])
         for uid in list(windows):
             events += self.apply(['notify', windows.pop(uid)])
         return events
@@ -669,10 +964,7 @@ class ClientRig(object):
                    'raised': False, 'ret': 'none'}
         begin.update(self._snapshot(last[0]))
 
-        def point(key):
-            if self._depth or key not in points:
-                return
-            act = points.pop(key)
+        def interrupt(act):
             # where the interrupted call stands
             part = {'ev': 'NotifyPartial', 'raised': False, 'ret': 'none'}
             part.update(self._snapshot(last[0]))
@@ -683,6 +975,13 @@ class ClientRig(object):
             inner.append(part)
             inner.extend(evs)
             last[0] = self._mark()
+
+        def point(key):
+            if self._depth or key not in points:
+                return
+            interrupt(points.pop(key))
+
+        self._nr = interrupt
 
         def wrap(task):
             real = task._update
@@ -716,29 +1015,45 @@ class ClientRig(object):
                 dicts.append(d)
             raised, ret = self._notify(dicts)
         finally:
+            self._nr = None
             for p_ in patchers:
                 p_.stop()
+        if self.deadlock:
+            waiting[:] = []                           # nobody moves anymore
         end = {'ev': 'NotifyEnd', 'batch': begin['batch'], 'raised': raised, 'ret': ret}
         end.update(self._snapshot(last[0]))
         events = [begin] + inner + [end]
         # points never reached, threads that waited for the lock: run afterwards
-        for act in waiting + [points[k] for k in sorted(points, key=str)]:
+        for act in waiting:
+            events += self._resume(act)
+        for act in [points[k] for k in sorted(points, key=str)]:
             events += self.apply(act)
         return events
 
     # --------------------------------------------------------------------------
     def run(self, ops, iso=True):
         events = list()
-        for k, op in enumerate(ops):
-            pre = {u: tcode(self.tm._tasks[u].state) for u in self.tasks}
-            evs = self.apply(op)
-            if iso and op[0] == 'notify':
-                evs[0]['iso'] = self._isolation(ops, k, pre)
-            events += evs
-        self._set_fault(None)
+        try:
+            for k, op in enumerate(ops):
+                pre = {u: tcode(self.tm._tasks[u].state) if u in self.tm._tasks else 0
+                       for u in self.tasks}
+                evs = self.apply(op)
+                if iso and op[0] == 'notify' and evs and evs[0]['ev'] == 'Notify':
+                    evs[0]['iso'] = self._isolation(ops, k, pre)
+                events += evs
+                if self.deadlock:                     # nobody moves anymore
+                    break
+        finally:
+            self.close()
         return {'tasks': self.tasks, 'pilots': self.pilots,
                 'init_bound': self.init_bound, 'init_added': self.init_added,
                 'events': events}
+
+    def close(self):
+        '''end of a history: one history must not poison the next'''
+        self._set_fault(None)
+        if _tables() != BASE_TABLES:
+            _restore_tables(BASE_TABLES)
 
     def _isolation(self, ops, k, pre):
         '''the real code on the same history, batch without the entries of one
@@ -748,7 +1063,11 @@ class ClientRig(object):
         for rm in sorted(set(e[0] for e in batch)):
             rest = [e for e in batch if e[0] != rm]
             if rest:
-                other = ClientRig(self.tasks, self.pilots, self.init_bound, self.modes, self.add)
+                if _tables() != BASE_TABLES:          # an earlier step changed the tables:
+                    out.append({'rm': rm, 'post': {u: {'st': pre[u], 'cbs': []} for u in self.tasks}})
+                    continue                          # no clean second run to compare with
+                other = ClientRig(self.tasks, self.pilots, self.init_bound, self.modes, self.add,
+                                  self.late)
                 tr    = other.run(list(ops[:k]) + [['notify', rest]], iso=False)
                 tpost = tr['events'][-1]['tpost']
                 post  = {u: {'st': tpost[u]['st'], 'cbs': tpost[u]['cbs']} for u in self.tasks}
@@ -758,5 +1077,5 @@ class ClientRig(object):
         return out
 
 
-def run_ops(tasks, pilots, init_bound, ops, iso=True, modes=None, add=None):
-    return ClientRig(tasks, pilots, init_bound, modes, add).run(ops, iso=iso)
+def run_ops(tasks, pilots, init_bound, ops, iso=True, modes=None, add=None, late=None):
+    return ClientRig(tasks, pilots, init_bound, modes, add, late).run(ops, iso=iso)
